@@ -70,3 +70,134 @@ Print Assumptions plain_own_line.
 Theorem quiet_silent : forall p now o p' es, p_quiet p = true -> bar_call o -> pstep p now o = Ok (p', es) -> es = [].
 Proof. exact pstep_quiet. Qed.
 Print Assumptions quiet_silent.
+
+(* ================= the FRAMES written (not only the states) ================= *)
+From Clikit Require Import Proofs.ProgressFrameLemmas.
+
+(* draw_state p now o = the state a start / advance / set_progress / display / finish call renders when it draws: the
+   state the call leaves (step, maximum), before the write is recorded.
+   Whenever such a call puts anything on the stream, what it puts there is _overwrite of the frame rendered from
+   draw_state - whose step and maximum are those the call leaves - with the format fixed (with_fmt), at the clock value
+   of the call.  So no frame ever shows a step or maximum other than the current ones. *)
+Theorem frame_written_is_frame_of_post_state : forall p now o p' es q,
+  pstep p now o = Ok (p', es) -> draw_state p now o = Some q -> es <> [] ->
+  p_step q = p_step p' /\ p_max q = p_max p' /\
+  exists fm fr p2, frame_of (with_fmt q) now = Ok (fm, fr) /\
+    overwrite (set_out (with_fmt q) fm (p_secs (with_fmt q))) now fr = Ok (p2, es) /\
+    p' = set_drawn p2 (Some (p_step q, p_max q)).
+Proof. exact frame_of_post_state. Qed.
+Print Assumptions frame_written_is_frame_of_post_state.
+
+(* A rendered frame is the concatenation, placeholder by placeholder, of: the literal text; %current% = the step,
+   right-justified; %max% = the maximum; %percent% = percent_of; %elapsed% = the time since start; %message%; %bar% = a bar
+   segment (frame_wf gives its width); %estimated% / %remaining% only with a maximum. *)
+Theorem frame_pieces_show_state : forall q now, 0 <= p_max q -> forall f fm fm' fr,
+  render_frame q now fm f = Ok (fm', fr) -> exists parts, fr = concat parts /\ Forall2 (shows q now) f parts.
+Proof. exact render_frame_pieces. Qed.
+Print Assumptions frame_pieces_show_state.
+(* ... and the percentage every frame shows is between 0 and 100, is floor(100 * step / max), and is 100 exactly when the
+   step is the maximum. *)
+Theorem percent_shown : forall q, range q ->
+  0 <= percent_of q <= 100 /\ (0 < p_max q -> percent_of q = p_step q * 100 / p_max q) /\
+  (0 < p_max q -> (percent_of q = 100 <-> p_step q = p_max q)).
+Proof. exact percent_of_spec. Qed.
+Print Assumptions percent_shown.
+
+(* ANSI output (not a section, not quiet, a one-line format, frames of good markup that fit the terminal width):
+     ansi_out w sty p     the output is such an output, the formatter's style stack is empty, last length <= w
+     on_line R r t        the cursor of terminal t is in its last row, which holds r; the rows above are R
+     okl sty l            l is one line of good markup and does not end inside a tag (blanks may follow it)
+     padded_to n v        v followed by blanks up to n cells
+   One _overwrite of such a line l: whatever shorter-or-equal text the line held, it now holds exactly the VISIBLE text of
+   l padded to the previous length - no residue of a longer earlier frame - and that length is recorded. *)
+Theorem ansi_line_is_latest : forall w, (1 <= w)%nat -> forall sty q now l p' es R r t,
+  ansi_out w sty q -> on_line R r t -> (length r <= p_last_len q)%nat -> okl sty l -> (length (vis sty l) <= w)%nat ->
+  overwrite q now l = Ok (p', es) ->
+  on_line R (padded_to (p_last_len q) (vis sty l)) (feed w t es) /\
+  exists f', fmt_ok sty f' /\ p' = set_written (set_out q f' (p_secs q)) (length (padded_to (p_last_len q) (vis sty l))) now.
+Proof. exact ansi_overwrite. Qed.
+Print Assumptions ansi_line_is_latest.
+(* One call (step_fits: the frame it would draw is such a line): the premises are re-established, and if the call wrote
+   anything the line holds exactly the frame of the state the call leaves (shown_by: its visible text, padded; blanks
+   after clear); if it wrote nothing the line is as before. *)
+Theorem ansi_line_after_a_call : forall w, (1 <= w)%nat -> forall sty p now o p' es R r t,
+  ansi_out w sty p -> on_line R r t -> (length r <= p_last_len p)%nat -> step_fits w sty p now o -> pstep p now o = Ok (p', es) ->
+  ansi_out w sty p' /\ on_line R (match es with [] => r | _ => shown_by sty p now o end) (feed w t es) /\
+  (length (match es with [] => r | _ => shown_by sty p now o end) <= p_last_len p')%nat.
+Proof. exact ansi_step. Qed.
+Print Assumptions ansi_line_after_a_call.
+(* EVERY history with EVERY timing (run_fits: each frame drawn on the way is such a line; run_fitsb is the same as a check
+   that can be run): the rows above stay, the line shows the frame of the latest call that wrote (run_shown), nothing else. *)
+Theorem ansi_line_over_histories : forall w, (1 <= w)%nat -> forall sty ops p now R r t trace pf,
+  ansi_out w sty p -> on_line R r t -> (length r <= p_last_len p)%nat -> run_fits w sty p now ops ->
+  prun p now ops = Ok (trace, pf) ->
+  ansi_out w sty pf /\ on_line R (run_shown sty p now ops r) (feed w t (flat_map snd trace)) /\
+  (length (run_shown sty p now ops r) <= p_last_len pf)%nat.
+Proof. exact ansi_run. Qed.
+Print Assumptions ansi_line_over_histories.
+Theorem run_fits_can_be_run : forall w sty ops p now, run_fitsb w sty p now ops = true -> run_fits w sty p now ops.
+Proof. exact run_fitsb_ok. Qed.
+Print Assumptions run_fits_can_be_run.
+
+(* Section output (sec_out: decorated, not quiet, the bar's section is the first of the output's sections, the screen t is
+   the stack of all sections - SectionLemmas.Inv, the invariant of C15 - and every row count is right).
+   One call of the bar, or one write_line to a section below (good markup): the screen is again the stack of the sections -
+   the bar's frame replaces the rows of its own section only - and a call of the BAR leaves every section below exactly
+   as it was (content and row count). *)
+Theorem section_below_intact : forall w, (1 <= w)%nat -> forall sty p now o p' es t,
+  sec_out w sty p t -> sec_step_ok sty p now o -> good_pop sty o = true -> pstep p now o = Ok (p', es) ->
+  sec_out w sty p' (feed w t es) /\ (bar_call o -> skipn 1 (p_secs p') = skipn 1 (p_secs p)).
+Proof. exact sec_step. Qed.
+Print Assumptions section_below_intact.
+Theorem section_below_intact_over_histories : forall w, (1 <= w)%nat -> forall sty ops p now t trace pf,
+  sec_out w sty p t -> sec_run_ok sty p now ops -> forallb (good_pop sty) (map snd ops) = true ->
+  prun p now ops = Ok (trace, pf) ->
+  sec_out w sty pf (feed w t (flat_map snd trace)) /\
+  (Forall bar_call (map snd ops) -> skipn 1 (p_secs pf) = skipn 1 (p_secs p)).
+Proof. exact sec_run. Qed.
+Print Assumptions section_below_intact_over_histories.
+Theorem sec_run_ok_can_be_run : forall sty ops p now, sec_run_okb sty p now ops = true -> sec_run_ok sty p now ops.
+Proof. exact sec_run_okb_ok. Qed.
+Print Assumptions sec_run_ok_can_be_run.
+
+(* ---- instances: the premises are inhabited by non-trivial histories ---- *)
+Definition demo_f : formatter :=
+  match new_formatter (FAnsi true) [] with Ok f => f | Err _ => {| f_kind := FAnsi true; f_styles := []; f_stack := [] |} end.
+Definition m_long : str := [60;105;110;102;111;62;108;111;110;103;101;114;60;47;105;110;102;111;62;32;109;115;103]%N.  (* <info>longer</info> msg *)
+Definition m_short : str := [60;105;110;102;111;62;120;60;47;105;110;102;111;62]%N.                                    (* <info>x</info> *)
+Definition f_msg : format := [PLit [32]%N; PCurrent; PLit [47]%N; PMax; PLit [32;91]%N; PBar; PLit [93;32]%N; PPercent (SRight 3);
+                              PLit [37;32]%N; PMessage].
+Definition demo_ops : list (Z * pop) :=
+  [(0, OStart None); (200, OAdvance 1); (0, OMessage m_short); (200, OAdvance 3); (10, OAdvance 1); (200, OClear); (0, ODisplay); (50, OFinish)].
+(* ANSI, width 60, a format with %message%: a long tagged message, then a short one - the line is the latest frame *)
+Definition demo_ansi : pbar :=
+  pb_new true false false 60 demo_f [] 0 10 10 1 10 1 1 None [60;105;110;102;111;62;62;60;47;105;110;102;111;62]%N (Some f_msg) (Some m_long) 1000.
+Example c16_ansi_premises : run_fitsb 60 (f_styles demo_f) demo_ansi 1000 demo_ops = true /\
+  p_ansi demo_ansi = true /\ p_quiet demo_ansi = false /\ p_section demo_ansi = false /\ p_flc demo_ansi = 0%nat /\
+  good_lineb (f_styles demo_f) (p_pchar demo_ansi) = true /\ f_stack (p_f demo_ansi) = [].
+Proof. vm_compute. repeat split. Qed.
+Example c16_ansi_line :
+  match prun demo_ansi 1000 demo_ops with
+  | Ok (trace, pf) => rows (feed 60 term_init (flat_map snd trace)) = [run_shown (f_styles demo_f) demo_ansi 1000 demo_ops []]
+                      /\ p_step pf = 10 /\ p_max pf = 10
+  | Err _ => False
+  end.
+Proof. vm_compute. repeat split. Qed.
+(* a section output at width 30 with a section below: the frame wraps inside its own section, the section below stays *)
+Definition demo_sec_setup := srun true 30 [] demo_f [SCreate; SCreate; SWrite 1 [98;101;108;111;119]%N true].
+Definition demo_sec : pbar :=
+  match demo_sec_setup with
+  | Ok (st, f, _) => pb_new true false true 30 f st 0 10 10 0 1 1 1 (Some 2) [62]%N (Some f_msg) (Some m_long) 1000
+  | Err _ => demo_ansi
+  end.
+Example c16_section_premises : sec_run_okb (f_styles demo_f) demo_sec 1000 (demo_ops ++ [(0, OBelow m_short); (0, OAdvance (-3))]) = true /\
+  forallb (good_pop (f_styles demo_f)) (map snd (demo_ops ++ [(0, OBelow m_short); (0, OAdvance (-3))])) = true.
+Proof. vm_compute. split; reflexivity. Qed.
+Example c16_section_below :
+  match demo_sec_setup, prun demo_sec 1000 (demo_ops ++ [(0, OBelow m_short); (0, OAdvance (-3))]) with
+  | Ok (_, _, es0), Ok (trace, pf) =>
+    map sc_content (skipn 1 (p_secs pf)) = [[[98;101;108;111;119]%N; m_short]] /\
+    firstn 3 (rev (rows (feed 30 term_init (es0 ++ flat_map snd trace)))) = [[]; [120]%N; [98;101;108;111;119]%N]
+  | _, _ => False
+  end.
+Proof. vm_compute. repeat split. Qed.
